@@ -3,6 +3,7 @@ package main
 import (
 	"fmt"
 	"go/types"
+	"strings"
 
 	"golang.org/x/tools/go/ssa"
 )
@@ -40,34 +41,77 @@ type IfaceV struct {
 	v Value
 }
 
+// FloatV is a float carried as the bit pattern it was made from (w = 32 or 64 is
+// the width of that pattern; a float32 converted to float64 keeps w = 32).
+type FloatV struct {
+	bits *Term
+	w    int
+}
+
+// Seg is a piece of a string rope: a literal, or an opaque application.
 type Seg struct {
 	lit  string
-	op   string // opaque application name
+	op   string // "" literal; "bytes" (args: SliceSnap); otherwise opaque application name
 	args []Value
 }
 type StrV struct{ segs []Seg }
 
+// SliceSnap is a snapshot of byte-slice content (array expression at snapshot time).
+type SliceSnap struct {
+	a        *ArrExpr
+	off, len *Term
+}
+
 type TupleV []Value
 type FuncV struct {
-	fn   *ssa.Function
-	free []Value
+	fn    *ssa.Function
+	free  []Value
+	bound []Value // bound receiver (method value)
 }
 type OpaqueV struct {
 	kind string
 	id   string
 }
 type MapRef struct{ obj int }
+type ChanRef struct{ obj int }
+
+// RopeRef is the result of (*bytes.Buffer).Bytes(): it aliases the buffer object,
+// reading it yields the buffer's current rope.
+type RopeRef struct {
+	buf PtrV
+	n   int // number of segments at the time of the call (-1: all)
+}
+
+// ---- maps ------------------------------------------------------------------
+
+type MapEntry struct {
+	k, v Value
+}
+type MapV struct {
+	kt, vt  types.Type
+	entries []MapEntry // pairwise distinct keys on the current path
+}
+
+// ---- channels --------------------------------------------------------------
+
+type ChanV struct {
+	q      []Value
+	cap    int
+	closed bool
+	sent   int // total number of values ever enqueued
+}
 
 // ---- functional arrays -------------------------------------------------
 
 type ArrExpr struct {
-	kind             int // 0 base symbol, 1 const-zero, 2 store, 3 copy
-	name             string
-	w                int
-	base             *ArrExpr
-	idx, val         *Term
-	src              *ArrExpr
-	dOff, sOff, cnt  *Term
+	kind            int // 0 base symbol, 1 const-zero, 2 store, 3 copy
+	name            string
+	w               int
+	base            *ArrExpr
+	idx, val        *Term
+	src             *ArrExpr
+	dOff, sOff, cnt *Term
+	depth           int
 }
 
 func arrSort(w int) string { return fmt.Sprintf("(Array (_ BitVec 64) (_ BitVec %d))", w) }
@@ -75,7 +119,7 @@ func arrSort(w int) string { return fmt.Sprintf("(Array (_ BitVec 64) (_ BitVec 
 func (a *ArrExpr) sel(i *Term) *Term {
 	switch a.kind {
 	case 0:
-		return &Term{s: "(select " + a.name + " " + i.s + ")", w: a.w}
+		return rawTerm("(select "+a.name+" "+i.s+")", a.w)
 	case 1:
 		return bvConst(0, a.w)
 	case 2:
@@ -86,9 +130,13 @@ func (a *ArrExpr) sel(i *Term) *Term {
 			}
 			return a.base.sel(i)
 		}
+		// distinct offsets from the same base: (x + c1) vs (x + c2)
+		if d, ok := linDiffer(i, a.idx); ok && d {
+			return a.base.sel(i)
+		}
 		return tIte(c, a.val, a.base.sel(i))
 	case 3:
-		in := tAnd(bvCmp("bvuge", i, a.dOff), bvCmp("bvult", i, bvBin("bvadd", a.dOff, a.cnt)))
+		in := inRange(i, a.dOff, a.cnt)
 		if in.isConst {
 			if in.v == 1 {
 				return a.src.sel(bvBin("bvadd", bvBin("bvsub", i, a.dOff), a.sOff))
@@ -100,8 +148,58 @@ func (a *ArrExpr) sel(i *Term) *Term {
 	panic("bad arr")
 }
 
+// inRange builds  off <= i < off+cnt  (unsigned, no wrap assumed for buffer offsets).
+func inRange(i, off, cnt *Term) *Term {
+	if cnt.isConst && cnt.v == 0 {
+		return tFalse
+	}
+	// same linear base => decide on constants when possible
+	ib, ic := linParts(i)
+	ob, oc := linParts(off)
+	if ib == ob && cnt.isConst {
+		d := int64(ic - oc)
+		return boolConst(d >= 0 && uint64(d) < cnt.v)
+	}
+	if ib == ob && int64(ic-oc) < 0 {
+		return tFalse
+	}
+	lo := bvCmp("bvuge", i, off)
+	if ib == ob {
+		lo = tTrue
+	}
+	return tAnd(lo, bvCmp("bvult", bvBin("bvsub", i, off), cnt))
+}
+
+func linParts(t *Term) (string, uint64) {
+	if t.isConst {
+		return "", t.v
+	}
+	if t.lin != nil {
+		return t.lin.s, t.linC
+	}
+	return t.s, 0
+}
+
+// linDiffer reports whether two terms are provably different because they are the
+// same base plus different constants.
+func linDiffer(a, b *Term) (bool, bool) {
+	ab, ac := linParts(a)
+	bb, bc := linParts(b)
+	if ab == bb {
+		return ac != bc, true
+	}
+	return false, false
+}
+
 func (a *ArrExpr) store(i, v *Term) *ArrExpr {
-	return &ArrExpr{kind: 2, w: a.w, base: a, idx: i, val: v}
+	return &ArrExpr{kind: 2, w: a.w, base: a, idx: i, val: v, depth: a.depth + 1}
+}
+
+func (a *ArrExpr) copyFrom(dOff *Term, src *ArrExpr, sOff, cnt *Term) *ArrExpr {
+	if cnt.isConst && cnt.v == 0 {
+		return a
+	}
+	return &ArrExpr{kind: 3, w: a.w, base: a, src: src, dOff: dOff, sOff: sOff, cnt: cnt, depth: a.depth + 1}
 }
 
 // ---- types helpers -------------------------------------------------------
@@ -132,6 +230,20 @@ func intInfo(t types.Type) (w int, signed bool, ok bool) {
 	return 0, false, false
 }
 
+func floatWidth(t types.Type) int {
+	b, isb := t.Underlying().(*types.Basic)
+	if !isb {
+		return 0
+	}
+	switch b.Kind() {
+	case types.Float32:
+		return 32
+	case types.Float64, types.UntypedFloat:
+		return 64
+	}
+	return 0
+}
+
 func isBool(t types.Type) bool {
 	b, ok := t.Underlying().(*types.Basic)
 	return ok && b.Info()&types.IsBoolean != 0
@@ -141,4 +253,86 @@ func isString(t types.Type) bool {
 	return ok && b.Info()&types.IsString != 0
 }
 
-func u64(v int64) *Term { return bvConst(uint64(v), 64) }
+func litStr(s string) StrV {
+	if s == "" {
+		return StrV{}
+	}
+	return StrV{segs: []Seg{{lit: s}}}
+}
+
+// concrete returns the string if the rope consists of literals only.
+func (s StrV) concrete() (string, bool) {
+	var sb strings.Builder
+	for _, g := range s.segs {
+		if g.op != "" {
+			return "", false
+		}
+		sb.WriteString(g.lit)
+	}
+	return sb.String(), true
+}
+
+func (s StrV) concat(t StrV) StrV {
+	if len(s.segs) == 0 {
+		return t
+	}
+	if len(t.segs) == 0 {
+		return s
+	}
+	out := make([]Seg, 0, len(s.segs)+len(t.segs))
+	out = append(out, s.segs...)
+	for _, g := range t.segs {
+		if n := len(out); n > 0 && g.op == "" && out[n-1].op == "" {
+			out[n-1] = Seg{lit: out[n-1].lit + g.lit}
+		} else {
+			out = append(out, g)
+		}
+	}
+	return StrV{segs: out}
+}
+
+// describe renders a value for reports (never fed to the solver).
+func describe(v Value) string {
+	switch x := v.(type) {
+	case nil:
+		return "<nil>"
+	case *Term:
+		return x.s
+	case StrV:
+		var sb strings.Builder
+		for _, g := range x.segs {
+			if g.op == "" {
+				sb.WriteString(g.lit)
+			} else {
+				sb.WriteString("‹" + g.op)
+				for _, a := range g.args {
+					sb.WriteString(" " + describe(a))
+				}
+				sb.WriteString("›")
+			}
+		}
+		return sb.String()
+	case SliceSnap:
+		return fmt.Sprintf("bytes[%s+%s]", x.off.s, x.len.s)
+	case SliceV:
+		return fmt.Sprintf("slice(obj%d off=%s len=%s)", x.obj, x.off.s, x.len.s)
+	case PtrV:
+		return fmt.Sprintf("ptr(obj%d)", x.obj)
+	case FloatV:
+		return fmt.Sprintf("float%d(%s)", x.w, x.bits.s)
+	case IfaceV:
+		if x.t == nil {
+			return "nil-iface"
+		}
+		return fmt.Sprintf("iface(%s,%s)", x.t, describe(x.v))
+	case OpaqueV:
+		return x.kind + ":" + x.id
+	case StructV:
+		var parts []string
+		for _, f := range x.f {
+			parts = append(parts, describe(f))
+		}
+		return "{" + strings.Join(parts, ",") + "}"
+	}
+	return fmt.Sprintf("%T", v)
+}
